@@ -92,6 +92,8 @@ Record tstep := mkStep {
   t_restart : bool;                     (* lnd was restarted before this message *)
   t_now : N; t_peer : N; t_cid : N;     (* content id of the message bytes *)
   t_op : option gop;                    (* a graph maintenance event instead of a message *)
+  t_apply : bool;                       (* the update arrived through Builder.ApplyChannelUpdate *)
+  t_nosnap : bool;                      (* no snapshot exists after this step (first of a concurrent pair) *)
   t_fund : funding;                     (* what the chain answers for the announced scid NOW *)
   t_best : N;                           (* best block height the gossiper works with NOW *)
   t_msg : msg;
@@ -148,9 +150,31 @@ Fixpoint count_relays (cids : list (N * N)) (outs : list (N * verdict * bool))
       (if rl then match alookup id cids with Some c => bump c acc | None => acc end else acc)
   end.
 
-(* returns (final state, relay counts, bad step indices) *)
+(* the message of a step through its entry point; ApplyChannelUpdate answers a
+   boolean (false is recorded as an error verdict) and relays nothing *)
+Definition mstep_via (c : tcase) (t : tstep) (i : N) (st : state)
+  : state * list (N * verdict * bool) :=
+  match t_apply t, t_msg t with
+  | true, MCU u =>
+    let '(st', b) := apply_chan_upd (tverify (k_verify c)) (t_now t) st u in
+    (st', [(i, if b then VOk else VErr EOther, false)])
+  | _, _ => mstep c t (t_now t) (t_peer t) i st (t_msg t)
+  end.
+
+Definition is_outdated (v : verdict) : bool :=
+  match v with VErr EOutdated => true | _ => false end.
+Definition is_ok (v : verdict) : bool := match v with VOk => true | _ => false end.
+
+(* returns (final state, relay counts, bad step indices).  [pair]: the previous
+   step was the first of a concurrent pair.  lnd's gossiper runs its
+   IsStaleEdgePolicy pre-check outside the Builder's per-channel mutex: the
+   second update of a pair may have passed it before the first one was written
+   and is then refused by Builder.updateEdge with ErrOutdated, where the
+   sequential model answers nil ("stale, ignored"); both leave the graph as it
+   is.  Relays of the first update of a pair are not compared (the
+   de-duplication batch cannot be flushed between the two). *)
 Fixpoint check_steps (c : tcase) (st : state) (i : N) (ts : list tstep)
-         (cids : list (N * N)) (rel : list (N * N)) (bad : list N)
+         (cids : list (N * N)) (rel : list (N * N)) (bad : list N) (pair : bool)
   : list (N * N) * list N :=
   match ts with
   | [] => (rel, rev bad)
@@ -161,20 +185,22 @@ Fixpoint check_steps (c : tcase) (st : state) (i : N) (ts : list tstep)
     | Some o =>
       let st' := apply_op (k_sweep_always c) (c_own (k_cfg c)) st o in
       let ok := snap_matches st' (t_snap t) && bans_match st' (t_bans t) in
-      check_steps c st' (i + 1) r cids rel (if ok then bad else i :: bad)
+      check_steps c st' (i + 1) r cids rel (if ok then bad else i :: bad) false
     | None =>
-    let '(st', outs) := mstep c t (t_now t) (t_peer t) i st (t_msg t) in
+    let '(st', outs) := mstep_via c t i st in
     let ok :=
       match outs with
       | (_, v, _) :: more =>
-        verdict_eqb v (t_res t) &&
+        (verdict_eqb v (t_res t) ||
+         (pair && is_outdated (t_res t) && is_ok v &&
+          list_eqb (kv_eqb edge_eqb) (s_edges st') (s_edges st))) &&
         list_eqb res_eqb (sort_res (map (fun o => (fst (fst o), snd (fst o))) more))
                  (sort_res (t_resolved t))
       | [] => false
       end
-      && snap_matches st' (t_snap t) && bans_match st' (t_bans t) in
-    check_steps c st' (i + 1) r cids' (count_relays cids' outs rel)
-                (if ok then bad else i :: bad)
+      && (t_nosnap t || snap_matches st' (t_snap t)) && bans_match st' (t_bans t) in
+    check_steps c st' (i + 1) r cids' (if t_nosnap t then rel else count_relays cids' outs rel)
+                (if ok then bad else i :: bad) (t_nosnap t)
     end
   end.
 
@@ -184,7 +210,7 @@ Definition nonzero (l : list (N * N)) : list (N * N) :=
 (* indices of steps on which model and implementation disagree; index 100000
    flags a disagreement on the per-content Broadcast counts *)
 Definition check_case (c : tcase) : list N :=
-  let '(rel, bad) := check_steps c (init (c_own (k_cfg c))) 0 (k_steps c) [] [] [] in
+  let '(rel, bad) := check_steps c (init (c_own (k_cfg c))) 0 (k_steps c) [] [] [] false in
   if list_eqb (kv_eqb N.eqb) (nonzero rel) (nonzero (k_bcast c)) then bad
   else bad ++ [100000].
 
@@ -208,7 +234,7 @@ Fixpoint model_at (c : tcase) (st : state) (i : N) (ts : list tstep) (n : nat)
     let '(st', outs) :=
       match t_op t with
       | Some o => (apply_op (k_sweep_always c) (c_own (k_cfg c)) st o, [])
-      | None => mstep c t (t_now t) (t_peer t) i st (t_msg t)
+      | None => mstep_via c t i st
       end in
     match n with
     | O => Some (st', outs)
